@@ -83,7 +83,14 @@ type world struct {
 	reps []*slotRep
 }
 
+type deferredExport struct {
+	rd  io.Reader
+	err error
+	key string
+}
+
 type taskCtx struct {
+	deferred map[int]*deferredExport
 	w     *world
 	objs  map[int]*slotObj
 	reps  map[int]*slotRep
@@ -289,11 +296,30 @@ func (c *taskCtx) execOp(op *Op) string {
 				return "skip"
 			}
 			c.nExp++
+			var key string
+			if op.Defer {
+				key, _ = c.opKey(op)
+			}
 			rd, err := c.doExport(r.rep, op)
 			if err != nil {
 				c.nExpE++
 			}
+			if op.Defer {
+				// the reader is read by a later "read" operation, after other work
+				if c.deferred == nil {
+					c.deferred = map[int]*deferredExport{}
+				}
+				c.deferred[op.Dst] = &deferredExport{rd: rd, err: err, key: key}
+				return "skip"
+			}
 			return renderExport(rd, err)
+		case "read":
+			de := c.deferred[op.IArg]
+			if de == nil {
+				return "skip"
+			}
+			delete(c.deferred, op.IArg)
+			return renderExport(de.rd, de.err)
 		case "lkp":
 			return doLookup(op.Fn, op.SArg, op.IArg, op.Lang)
 		case "redec":
@@ -377,6 +403,12 @@ func (c *taskCtx) opKey(op *Op) (string, bool) {
 		return "exp|" + strconv.Quote(op.Tmpl) + f + "|" + r.origin, true
 	case "lkp":
 		return fmt.Sprintf("lkp|%d|%s|%d|%d", op.Fn, strconv.Quote(op.SArg), op.IArg, op.Lang), true
+	case "read":
+		// same key as the export it belongs to: reading later must not matter
+		if de := c.deferred[op.IArg]; de != nil && de.key != "" {
+			return de.key, true
+		}
+		return "", false
 	case "redec":
 		sl := c.slot(op.Obj)
 		if sl == nil || isNilObj(sl.current()) {
